@@ -78,8 +78,9 @@ def main():
     if keep and confirmed:
         dst = os.path.join(VERIF, "seeded", keep)
         os.makedirs(dst, exist_ok=True)
-        shutil.copy(patch, os.path.join(dst, "patch.diff"))
-        shutil.copy(demo, os.path.join(dst, "demo.py"))
+        if os.path.abspath(patch) != os.path.abspath(os.path.join(dst, "patch.diff")):
+            shutil.copy(patch, os.path.join(dst, "patch.diff"))
+            shutil.copy(demo, os.path.join(dst, "demo.py"))
         meta = {}
         mp = os.path.join(d, "meta.json")
         if os.path.exists(mp):
